@@ -18,7 +18,7 @@
     output: one field per operation (ok:text or err:Index), then the frame text,
     then the skeleton of the final tree. *)
 From V.lib Require Import Prelude Wire.
-From V.model Require Import Text.
+From V.model Require Import Text Escape.
 
 Definition op_h : str := [104]%N.
 
@@ -92,9 +92,21 @@ Definition step (st : cell * list str) (tok : str) : cell * list str :=
       end
   end.
 
+(** leaf level of save / re-open (op lx): the text of one a:t written by libxml2's serialiser (text escaping:
+    amp, lt, gt and CR as a character reference) and read by the parser model of model/Escape.v:
+    fields = escaped text, then ok + the text read back, or broken *)
+Definition op_lx : str := [108; 120]%N.
+Definition lxml_text_escape (s : str) : str := sax_escape_g false false false true s.
+Definition run_lx (s : str) : str :=
+  let e := lxml_text_escape s in
+  fields [show_str e; match lex_text e with OneText v => w_ok ++ show_str v | BrokenText => w_badcase end].
+
 Definition run_c04 (args : list str) : str :=
   match args with
   | op :: toks =>
+      if str_eqb op op_lx then
+        match toks with [s] => run_lx s | [] => run_lx [] | _ => w_badcase end
+      else
       if str_eqb op op_h then
         let (c, outs) := fold_left step toks (None, []) in
         fields (outs ++ [match c with
